@@ -44,13 +44,13 @@ type rsock struct {
 
 type world struct {
 	queueSize int // RouterConfig.QueueSize for routers created from now on (0 = unlimited)
-	m        *mWorld
-	routers  map[string]*vnet.Router
-	mrouters map[string]*mRouter
-	nets     map[string]*vnet.Net
-	mhosts   map[string]*mHost
-	socks    []*rsock
-	errs     []string
+	m         *mWorld
+	routers   map[string]*vnet.Router
+	mrouters  map[string]*mRouter
+	nets      map[string]*vnet.Net
+	mhosts    map[string]*mHost
+	socks     []*rsock
+	errs      []string
 }
 
 func newWorld() *world {
@@ -431,6 +431,107 @@ func c01plan(topo c01topo, nat natSpec, steps int, senders, destLimit int) *expl
 }
 
 // c01concurrent: several LAN and WAN senders write to one WAN socket concurrently.
+// c01closing: one socket of the receiving host is closed while datagrams for it and for a second, open
+// socket of the same host are in flight.  Datagrams for the open socket must all arrive, in order, intact;
+// the socket being closed receives an in-order duplicate-free part of its flow; Close returns; nothing
+// is left blocked.
+func c01closing(per, bound int, strict bool) *explore.Scenario {
+	name := fmt.Sprintf("a socket is closed while traffic flows, 2 senders x%d", per)
+	if strict {
+		name += " [strict deviations]"
+	}
+	sc := &explore.Scenario{Name: name, Bound: bound}
+	sc.Cfg.Horizon = 5 * time.Second
+	sc.Cfg.Strict = strict
+	sc.Cfg.YieldOnRelease = !strict
+	sc.Make = func() (func(), func(*zzvsched.Exec) (string, *explore.Violation)) {
+		var viol *explore.Violation
+		var w *world
+		var sink, victim *rsock
+		done, closed := 0, false
+		body := func() {
+			w = newWorld()
+			w.router("root", "1.2.3.0/24", "", nil, nil)
+			w.host("W1", "root", "1.2.3.10")
+			w.host("W2", "root", "1.2.3.20")
+			sink = w.sock("W1", "", 7000, "")
+			victim = w.sock("W1", "", 7001, "")
+			senders := []*rsock{w.sock("W2", "", 7000, ""), w.sock("W2", "", 7001, "")}
+			if err := w.routers["root"].Start(); err != nil {
+				panic(err)
+			}
+			zzvsched.WaitQuiet(time.Millisecond)
+			for i, s := range senders {
+				i, s := i, s
+				dst := &net.UDPAddr{IP: net.ParseIP("1.2.3.10"), Port: 7000 + i}
+				zzvsched.GoNamed(fmt.Sprintf("sender%d", i), func() {
+					for k := 0; k < per; k++ {
+						if _, err := s.conn.WriteTo([]byte(fmt.Sprintf("s%d-%d", i, k)), dst); err != nil {
+							viol = &explore.Violation{Sig: "C01 write-failed", Msg: name + ": " + err.Error()}
+						}
+					}
+					done++
+				})
+			}
+			zzvsched.GoNamed("closer", func() {
+				_ = victim.conn.Close()
+				closed = true
+			})
+			zzvsched.WaitQuiet(time.Millisecond)
+		}
+		check := func(ex *zzvsched.Exec) (string, *explore.Violation) {
+			str := func(r *rsock) string {
+				var o []string
+				if r != nil {
+					for _, it := range r.got {
+						o = append(o, string(it.payload))
+					}
+				}
+				return strings.Join(o, ",")
+			}
+			out := str(sink) + " | " + str(victim)
+			if len(ex.Panics) > 0 {
+				return out, &explore.Violation{Sig: "C01 panic", Msg: name + ": panic: " + ex.Panics[0].Value + "\n" + ex.Panics[0].Stack}
+			}
+			if viol != nil {
+				return out, viol
+			}
+			if ex.HorizonHit {
+				return out + " HORIZON", nil
+			}
+			if done != 2 || !closed {
+				return out, &explore.Violation{Sig: "C01 blocked", Msg: fmt.Sprintf("%s: senders finished: %d of 2, Close returned: %v; blocked threads: %v", name, done, closed, ex.Parked)}
+			}
+			for _, pk := range ex.Parked {
+				if pk.Op == "lock" || pk.Op == "rlock" {
+					return out, &explore.Violation{Sig: "C01 blocked", Msg: fmt.Sprintf("%s: at quiescence a thread is still waiting for a lock: %v", name, ex.Parked)}
+				}
+			}
+			want := ""
+			for k := 0; k < per; k++ {
+				if k > 0 {
+					want += ","
+				}
+				want += fmt.Sprintf("s0-%d", k)
+			}
+			if str(sink) != want {
+				return out, &explore.Violation{Sig: "C01 lost", Msg: fmt.Sprintf("%s: the open socket 1.2.3.10:7000 received [%s], written to it: [%s] (router started, unlimited queues, no filter)", name, str(sink), want)}
+			}
+			last := -1
+			for _, it := range victim.got {
+				var i, k int
+				if _, err := fmt.Sscanf(string(it.payload), "s%d-%d", &i, &k); err != nil || i != 1 || k <= last || k >= per || it.src != "1.2.3.20:7001" {
+					return out, &explore.Violation{Sig: "C01 misdelivered", Msg: fmt.Sprintf("%s: the socket that was being closed received [%s]: not an in-order duplicate-free part of its own flow", name, str(victim))}
+				}
+				last = k
+			}
+			return out, nil
+		}
+		return body, check
+	}
+	return sc
+}
+
 func c01concurrent(nat natSpec, nSenders, per, bound int, strict bool, queue int) *explore.Scenario {
 	name := fmt.Sprintf("concurrent nat=%s senders=%d x%d", nat, nSenders, per)
 	if queue > 0 {
@@ -611,6 +712,7 @@ func init() {
 				// bounded router queues: no loss while the number of datagrams stays below the bound,
 				// and with a bound of 1 whatever arrives is still intact, in order, once
 				out = append(out, c01concurrent(nats[0], 2, 2, 2, true, 5), c01concurrent(nats[0], 2, 2, 2, true, 1))
+				out = append(out, c01closing(2, 2, true), c01closing(1, 1, false))
 				return out
 			}
 			out = append(out, c01plan(c01topos[0], nats[0], 3, 0, 0))
@@ -627,8 +729,9 @@ func init() {
 			for _, n := range []natSpec{nats[0], nats[9]} {
 				out = append(out, c01concurrent(n, 2, 1, 1, false, 0))
 			}
+			out = append(out, c01closing(2, 3, true), c01closing(2, 1, false), c01closing(1, 2, false))
 			return out
 		},
-		Rule: "topologies {root only; root+LAN; root+2 sibling LANs; root+LAN+nested LAN} with static / automatic / two-address hosts and sockets bound to a specific address, the wildcard, port 0 or dialled, x NAT {9 mapping/filtering combinations, 1:1} x every traffic plan of 2-3 sends over (sending socket) x (every socket address on every network, unbound port, unroutable IPs, loopback, the LAN's own external address, 'the source last observed by socket k'), payload sizes {1500,0,1}, sender buffer overwritten after WriteTo; after each send the system runs to quiescence and every socket's new receptions are compared with the routing/NAT model. Plus 2-3 concurrent senders x 2 datagrams through one NAT to one socket under every schedule within the deviation bound, followed by a reply to every observed source.",
+		Rule:        "topologies {root only; root+LAN; root+2 sibling LANs; root+LAN+nested LAN} with static / automatic / two-address hosts and sockets bound to a specific address, the wildcard, port 0 or dialled, x NAT {9 mapping/filtering combinations, 1:1} x every traffic plan of 2-3 sends over (sending socket) x (every socket address on every network, unbound port, unroutable IPs, loopback, the LAN's own external address, 'the source last observed by socket k'), payload sizes {1500,0,1}, sender buffer overwritten after WriteTo; after each send the system runs to quiescence and every socket's new receptions are compared with the routing/NAT model. Plus 2-3 concurrent senders x 2 datagrams through one NAT to one socket under every schedule within the deviation bound, followed by a reply to every observed source. Plus: one socket of the receiving host is closed while datagrams for it and for a second open socket of that host are in flight (the open socket must receive everything; Close returns; no thread stays blocked on a lock).",
 		Assumptions: []string{"external ports are 'some fresh port': bound to the value first observed, then required to be stable and unique", "no time passes (mapping lifetime 30 s); queues unbounded unless stated"}})
 }
